@@ -16,12 +16,21 @@
 (*                 0 on boundary nodes; flux over face (a, b) =            *)
 (*                 orient * (psi[b] - psi[a]); initial values and steps    *)
 (*                 dt = (1/2, 1) * CFL limit                               *)
+(* Magnitude: the property speaks of faces with NONZERO flux, however      *)
+(* small.  Every emitted input carries exps = ScaleExps; the harness       *)
+(* realises the signs / the stream-function flux multiplied by 2^e for     *)
+(* every e (2^-40 ~ 1e-12, 1, 2^30 ~ 1e9; powers of two keep doubles and   *)
+(* the rational step exact).  The reference is scale free: the selection   *)
+(* depends on the sign only, and the explicit step is invariant under      *)
+(* (flux, dt) -> (flux * 2^e, dt / 2^e), so the spec works in units of the *)
+(* scale and only carries the exponent.                                    *)
 (* Laws: ImplAgrees on every (grid, s, bc, n); DivFree, NoFlow and          *)
 (* TransportLaw on every transport input.                                  *)
 (***************************************************************************)
 EXTENDS GridComplexes, Upwind
 
-CONSTANTS SelGrids, TGrids, Masks, SignPeriod, BcPeriod, PsiVals, MaxChainFaces
+CONSTANTS SelGrids, TGrids, Masks, SignPeriod, BcPeriod, PsiVals, MaxChainFaces,
+          ScaleExps    \* flux magnitudes: every input is realised with the flux multiplied by 2^e, e \in ScaleExps
 
 VARIABLES src, gi, code, bcm, psi,
           cur      \* the grid chosen in the first step (kept in the state so that it is built once)
@@ -91,12 +100,14 @@ UEmit == phase = 2 =>
            ps == PsiOf(T.G, psi)
            fl == FluxOf(T, ps)
        IN PrintT(ToJson([src |-> "tr", gi |-> gi, psi |-> ps, flux |-> fl, inits |-> Inits(T.G, ps),
-                         dts |-> Steps(T, fl)]))
+                         dts |-> Steps(T, fl), exps |-> SetToSortSeq(ScaleExps, <)]))
   ELSE LET G == CurG IN
        IF src = "complex"
        THEN PrintT(ToJson([src |-> "complex", g |-> G, xy |-> [n \in 1..G.nn |-> Coord(box, n - 1)],
                            tag |-> <<box, mask, split, code, bcm>>,
-                           s |-> SignsAt(G, code), bc |-> BcAt(G, bcm), n |-> NComp]))
+                           s |-> SignsAt(G, code), bc |-> BcAt(G, bcm), n |-> NComp,
+                           exps |-> SetToSortSeq(ScaleExps, <)]))
        ELSE PrintT(ToJson([src |-> "real", gi |-> gi, tag |-> <<gi, code, bcm>>,
-                           s |-> SignsAt(G, code), bc |-> BcAt(G, bcm), n |-> NComp]))
+                           s |-> SignsAt(G, code), bc |-> BcAt(G, bcm), n |-> NComp,
+                           exps |-> SetToSortSeq(ScaleExps, <)]))
 =============================================================================
